@@ -94,7 +94,10 @@ func c10Isolation(c *Chooser, env *Env, defective, faults bool) *Outcome {
 	}
 	dh := diskHash(w)
 
-	fpBefore := PackageFingerprints()
+	var fpBefore, fpAfter map[string]uint64
+	if !kern.RaceLane {
+		fpBefore = PackageFingerprints()
+	}
 	ro := RunOpts{KeepTrace: env.KeepTrace}
 	if c.Weighted("world.secondcall", 1, 5) {
 		// the same invocation as the second call on one Linter instance: "once per run" and
@@ -103,7 +106,9 @@ func c10Isolation(c *Chooser, env *Env, defective, faults bool) *Outcome {
 		o.probe("second_call_on_one_linter", 1)
 	}
 	multi := RunLint(w, c, ro)
-	fpAfter := PackageFingerprints()
+	if !kern.RaceLane {
+		fpAfter = PackageFingerprints()
+	}
 	o.addRun(multi.K)
 	if env.KeepTrace {
 		o.Traces = append(o.Traces, multi.K.Trace)
@@ -119,6 +124,11 @@ func c10Isolation(c *Chooser, env *Env, defective, faults bool) *Outcome {
 	o.Digest = DigestOf(multi.Stdout, multi.Errs, multi.Fatal != "")
 	if v := runFailure("C10", multi.K); v != nil {
 		o.V = v
+		return o
+	}
+	if kern.RaceLane {
+		// the race lane only needs the concurrent run itself (the worker reads the detector's
+		// log after the evaluation); the value oracles are decided by the other lanes
 		return o
 	}
 	// 5. immutability of the built-in tables
